@@ -114,7 +114,7 @@ def gen_history(r, cats, length):
         elif k < 0.78:
             ops.append(("call", r.choice(quants), r.choice(["GetValidUnits", "GetUnitName", "GetComposingUnitsJoiningExponents", "GetCategoryToUnitAndExpsCopy", "IsDerived", "MakeCopy", "GetCategoryInfo"]), ()))
         elif k < 0.82:
-            ops.append(("call", r.choice(quants), "SetUnknownCaption", ("x",)))
+            ops.append(("call", r.choice(quants), "SetUnknownCaption", (r.choice(["x", "cap", "Feeeet", "", None]),)))
         elif k < 0.88:
             ops.append(("builtin", r.choice(["repr", "str"]), r.choice(scal + arrs + quants)))
         elif k < 0.94:
@@ -345,6 +345,15 @@ def request_orders(ctx, r, n_orders):
                         ctx.violation("request-order:request-raised:%s" % type(e).__name__, {"order": order, "request": [how, u, c, cap], "error": str(e)[:160]})
                         break
                     got.append(((how, u, c, cap), q, snapshot.quantity_fingerprint(q)))
+                    # the mutator raises whatever it is asked to set - also the caption the quantity already has
+                    for new_caption in (q.GetUnknownCaption(), "other", ""):
+                        ctx.ev()
+                        try:
+                            q.SetUnknownCaption(new_caption)
+                            ctx.violation("mutator-did-not-raise-ReadOnlyError", {"request": [how, u, c, cap], "SetUnknownCaption": new_caption, "own_caption": q.GetUnknownCaption()})
+                        except Exception as e:
+                            if type(e).__name__ != "ReadOnlyError":
+                                ctx.violation("mutator-raised-another-error:%s" % type(e).__name__, {"request": [how, u, c, cap], "SetUnknownCaption": new_caption})
                     ctx.nt(("request-order", cur, how, u == cur, c is None, cap))
                     for (req, q0, fp0) in got:
                         ctx.ev()
